@@ -19,11 +19,10 @@ Theorem auto_is_xz_on_FD : forall fuel inp r, inp = 0xFD :: r ->
 Proof. intros fuel inp r ->. split; reflexivity. Qed.
 Print Assumptions auto_is_xz_on_FD.
 
-Theorem auto_is_lzip_on_4C : forall fuel inp r, inp = 0x4C :: r ->
-  auto_decode fuel false inp = lzip_decode fuel false inp.
+Theorem auto_is_lzip_on_4C : forall fuel concatenated inp r, inp = 0x4C :: r ->
+  auto_decode fuel concatenated inp = lzip_decode fuel concatenated inp.
 Proof.
-  intros fuel inp r ->. unfold auto_decode. cbn [N.eqb Pos.eqb].
-  destruct (lzip_decode fuel false (76 :: r)) as [[st out] used]. destruct st; reflexivity.
+  intros fuel c inp r ->. unfold auto_decode. cbn [N.eqb Pos.eqb]. reflexivity.
 Qed.
 Print Assumptions auto_is_lzip_on_4C.
 
